@@ -100,7 +100,7 @@ func (vp *baseVoteproof) decodeJSON(b []byte, enc encoder.Encoder) (u baseVotepr
 		}
 
 		sfs := vp.sfs[i]
-		if sfs == nil || sfs.Fact() == nil {
+		if sfs == nil || sfs.Fact() == nil || sfs.Fact().Hash() == nil {
 			return u, e.Errorf("empty sign fact found")
 		}
 
